@@ -4,6 +4,7 @@ CONSTANTS
   InstOf <- InstOf4
   Limit <- Limit11
   MaxCancel = 1
+  MaxFail = 1
 SPECIFICATION FairSpec
 INVARIANT TypeOK
 INVARIANT Inv_Limit
